@@ -69,6 +69,28 @@ func c13Cert(cn string) (tls.Certificate, *x509.Certificate) {
 	return tls.Certificate{Certificate: [][]byte{der}, PrivateKey: key, Leaf: leaf}, leaf
 }
 
+// c13Impostor makes a certificate which copies every field of orig an
+// attacker can copy (subject, issuer, serial number, validity, usages, names)
+// around a key of its own.
+func c13Impostor(orig *x509.Certificate) tls.Certificate {
+	key, err := ecdsa.GenerateKey(elliptic.P256(), rand.Reader)
+	if nil != err {
+		panic(err)
+	}
+	tmpl := x509.Certificate{
+		SerialNumber: orig.SerialNumber, Subject: orig.Subject,
+		NotBefore: orig.NotBefore, NotAfter: orig.NotAfter,
+		KeyUsage: orig.KeyUsage, ExtKeyUsage: orig.ExtKeyUsage,
+		BasicConstraintsValid: true, IPAddresses: orig.IPAddresses,
+	}
+	der, err := x509.CreateCertificate(rand.Reader, &tmpl, &tmpl, &key.PublicKey, key)
+	if nil != err {
+		panic(err)
+	}
+	leaf, _ := x509.ParseCertificate(der)
+	return tls.Certificate{Certificate: [][]byte{der}, PrivateKey: key, Leaf: leaf}
+}
+
 func c13Start(name string, cert tls.Certificate, extra ...*x509.Certificate) *c13Server {
 	s := &c13Server{name: name, hits: map[string]int{}, bytes: map[string]int{}}
 	s.chain = []*x509.Certificate{cert.Leaf}
@@ -160,6 +182,7 @@ func c13NewWorld() *c13World {
 	w.servers["A"] = c13Start("A", ca)
 	w.servers["B"] = c13Start("B", cb)
 	w.servers["C"] = c13Start("C", cc, la) /* chain: leaf C, then A's certificate */
+	w.servers["I"] = c13Start("I", c13Impostor(la)) /* A's certificate in everything but the key */
 	pa, pb := hworld.PinOf(w.servers["A"].chain[0]), hworld.PinOf(w.servers["B"].chain[0])
 	w.pins = map[string]string{
 		"pinA":            pa,
@@ -275,7 +298,7 @@ func c13Snapshot() c13Defaults {
 
 func c13(r *ev.Result, tier string) {
 	quick := isQuick(tier)
-	r.Rule = "(a) every (server in {A, B, C=chain[C,A]}, fingerprint spelling) pair over 11 spellings; (b) every history of <=3 calls over {pinA->A, pinA->B, pinB->B, pinB->A, none->A, pinA->C}; " +
+	r.Rule = "(a) every (server in {A, B, C=chain[C,A], I=a copy of A's certificate around another key}, fingerprint spelling) pair over 11 spellings; (b) every history of <=3 calls over {pinA->A, pinA->B, pinB->B, pinB->A, none->A, pinA->C, pinA->I}; " +
 		"(c) every interleaving of 2 (thorough 3) concurrent calls over those configurations at the scheduling points Output/SetInput/Go (stateless DFS, all schedules); states = distinct (configuration set, schedule prefix) visited, " +
 		"transitions = scheduling steps, traces = complete executions against real TLS servers"
 	w := c13NewWorld()
@@ -298,7 +321,7 @@ func c13(r *ev.Result, tier string) {
 	for k := range w.pins {
 		classes = append(classes, k)
 	}
-	for _, srv := range []string{"A", "B", "C"} {
+	for _, srv := range []string{"A", "B", "C", "I"} {
 		for _, pc := range classes {
 			c := c13Call{Server: srv, Pin: pc}
 			i := id()
@@ -312,7 +335,7 @@ func c13(r *ev.Result, tier string) {
 	r.Sample(6, map[string]any{"single": c13Call{Server: "C", Pin: "pinA"}, "expected": "ok (the chain's second certificate carries key A)"})
 
 	/* (b) */
-	menu := []c13Call{{"A", "pinA"}, {"B", "pinA"}, {"B", "pinB"}, {"A", "pinB"}, {"A", "none"}, {"C", "pinA"}}
+	menu := []c13Call{{"A", "pinA"}, {"B", "pinA"}, {"B", "pinB"}, {"A", "pinB"}, {"A", "none"}, {"C", "pinA"}, {"I", "pinA"}}
 	var hists [][]c13Call
 	var rec func(cur []c13Call)
 	rec = func(cur []c13Call) {
